@@ -97,6 +97,8 @@ def show(e, minp=1):
     elif k == 'lam':
         s = '|' + ', '.join(e[1]) + '| ' + show(e[2], 1)
         return '(' + s + ')' if minp > 1 else s
+    elif k == 'blk':          # block lambda called in place: braces inside an expression
+        return '(|| { return ' + show(e[1], 1) + '; })()'
     elif k == 'par':          # explicit parentheses (no tree node)
         s = '(' + show(e[1], 1) + ')'
         return s
@@ -428,12 +430,34 @@ class FnGen(Gen):
             if c:
                 self.shapes.add(('fn', 'call', kind))
                 return c
+        if d > 0 and kind in (None, 'str') and not restricted and r.random() < (0.3 if kind == 'str' else 0.06):
+            depth = r.choice([2, 2, 3])
+            self.shapes.add(('fn', 'interp-nest', depth))
+            return self.nested_interp(vs, d, depth)
         if d > 1 and kind in (None, 'any') and not restricted and r.random() < 0.1:
             l, _ = self.lam(vs, d)
             self.shapes.add(('fn', 'lambda-value'))
             return ('call', l, [self.expr(vs, 1, 'num') for _ in range(len(l[1]))]) if r.random() < 0.5 else l
         plain = {v: k for v, k in vs.items() if not isinstance(k, tuple)}
         return Gen.expr(self, plain, d, kind, restricted)
+
+    def nested_interp(self, vs, d, depth):
+        """interpolations nested `depth` deep; the innermost expression is a block lambda called in place (braces inside
+        the innermost interpolation); literal text contains braces"""
+        r = self.r
+        if depth <= 0:
+            return ('blk', self.expr(vs, min(d - 1, 1), r.choice(['num', 'str', 'bool']), 'na'))
+        parts = []
+        for _ in range(r.randint(1, 2)):
+            parts.append(r.choice(['', '{', '}', 'a{b}', '{}', '<', ' ']))
+            inner = self.nested_interp(vs, d, depth - 1)
+            if depth > 1 and r.random() < 0.3:
+                inner = ('blk', inner)                      # a brace pair around the nested string
+            elif depth > 1 and r.random() < 0.3:
+                inner = ('bin', '+', inner, ('str', r.choice(['}', '{', 'z'])))
+            parts.append(inner)
+        parts.append(r.choice(['', '}', '{', '>']))
+        return ('interp', [p_ for p_ in parts if p_ != ''])
 
     def fn_decl(self, sc, d, outer):
         r = self.r
@@ -737,6 +761,192 @@ RECOVERY_FIXED = [
     'for i in 1..4 { try { ghost += i; print("add-assign gave ${ghost}"); } catch e { total += i; } } print("sum ${total}");',
     'try { q = 1; } catch e { print(type(e)); } try { print(q); } catch e { print(type(e)); } var q = 2; print(q); q = 3; print(q);',
     'fn f() { try { zed -= 1; } catch e { print(type(e)); } try { return zed; } catch e { return type(e); } } print(f()); print(f());',
+]
+
+
+def capture_exit_program(g, frag):
+    """directed: closures capture loop-body locals, then break / continue / return leaves the iteration (the scope-exit code of
+    the jump must CLOSE every captured local, not pop it), then the freed slots are reused by later locals, then every closure
+    is called.  for / while, nesting 1-2 (inner block, inner loop), several captured locals, captured and uncaptured interleaved,
+    closures that read and closures that write.  frag=True: only the forms of the function fragment (while, v[i] = e);
+    frag=False: also for loops and v.push(e) (compared with the full reference interpreter).
+    S: a closure denotes the variable of the iteration that created it, whatever way the iteration ended."""
+    r = g.r
+    exitk = r.choice(['break', 'continue', 'break', 'continue', 'return'])
+    where = r.choice(['fn', 'fn', 'block']) if exitk != 'return' else 'fn'
+    loop = 'while' if frag else r.choice(['for', 'forvec', 'while'])
+    nest = r.choice(['flat', 'flat', 'block', 'innerloop', 'outerloop'])
+    glob = (exitk == 'return') or r.random() < 0.3            # the closure store is a global
+    push = (not frag) and r.random() < 0.6
+    n_it = r.randint(3, 5)
+    kx = r.randint(1, n_it - 1)
+    cnt = [0]
+
+    def store(e):
+        return 'fs.push(%s);' % e if push else 'fs = [%s, fs];' % e          # no methods in the fragment: a linked list
+
+    def decls(tag, lv):
+        """1-4 locals, captured and uncaptured interleaved, then one closure per captured local"""
+        ds, caps, out = [], [], []
+        for j in range(r.randint(1, 4)):
+            cnt[0] += 1
+            nm = '%s%d' % (tag, cnt[0])
+            init = r.choice(['%s * 10 + %d' % (lv, j), '%s + %d' % (lv, 100 * (j + 1)), '"%s${%s}"' % (nm, lv)])
+            ds.append('var %s = %s;' % (nm, init))
+            if r.random() < 0.65 or (j == 0 and not caps):
+                caps.append((nm, init.startswith('"')))
+        for nm, is_s in caps:
+            kind = r.choice(['read', 'read', 'write', 'pair'])
+            if kind == 'read':
+                out.append(store('|| %s' % nm))
+            elif kind == 'write':
+                out.append(store('|| { %s = %s; return %s; }' % (nm, ('%s + "!"' if is_s else '%s + 1') % nm, nm)))
+            else:
+                other = r.choice(caps)[0]
+                out.append(store('|| "${%s}/${%s}"' % (nm, other)))
+        g.shapes.add(('capexit-decl', len(ds), len(caps)))
+        return ' '.join(ds), ' '.join(out)
+
+    jump = {'break': 'break;', 'continue': 'continue;', 'return': 'return;'}[exitk]
+    cond = r.choice(['%s == %d' % ('i', kx), 'i % 2 == 0', 'i >= %d' % kx]) if exitk == 'continue' else 'i == %d' % kx
+    d1, c1 = decls('x', 'i')
+    body = d1 + ' ' + c1
+    if nest == 'block':
+        d2, c2 = decls('z', 'i')
+        body += ' { %s %s if %s { %s } }' % (d2, c2, cond, jump)
+    elif nest == 'innerloop':          # the jump belongs to the inner loop; the outer body's captured locals stay
+        d2, c2 = decls('z', 'j')
+        inner_jump = jump if exitk == 'return' else r.choice(['break;', 'continue;'])
+        body += ' var j = 0; while j < 3 { j += 1; %s %s if j == 2 { %s } print("in${j}"); }' % (d2, c2, inner_jump)
+        body += ' if %s { %s }' % (cond, jump)
+    else:
+        body += ' if %s { %s }' % (cond, jump)
+    if r.random() < 0.6:
+        d3, c3 = decls('w', 'i')
+        body += ' %s %s' % (d3, c3)
+    body += ' print("end${i}");'
+    if loop == 'while':
+        lp = 'var i = 0; while i < %d { i += 1; %s }' % (n_it, body)
+    elif loop == 'for':
+        lp = 'for i in 1..%d { %s }' % (n_it + 1, body)
+    else:
+        lp = 'for i in [%s] { %s }' % (', '.join(str(x) for x in range(1, n_it + 1)), body)
+    if nest == 'outerloop':            # the capturing loop runs twice inside an outer loop with its own captured local
+        lp = 'var o = 0; while o < 2 { o += 1; var ox = o * 1000; %s %s }' % (store('|| ox'), lp)
+    reuse = ' '.join('var %s = "%s";' % (c, c) for c in ['ra', 'rb', 'rc', 'rd', 're', 'rf'][:r.randint(2, 6)])
+    if push:
+        callall = 'for f in fs { print(f()); } for f in fs { print(f()); }'
+        init = 'var fs = [];'
+    else:
+        callall = 'var k = fs; while k != nil { print(k[0]()); k = k[1]; } k = fs; while k != nil { print(k[0]()); k = k[1]; }'
+        init = 'var fs = nil;'
+    g.shapes.add(('capexit', exitk, where, loop, nest, glob, push))
+    if where == 'block':
+        return '{ %s %s %s %s print(ra); }' % (init, lp, reuse, callall)
+    if glob:
+        return ('%s fn run() { %s %s print(rb); } run(); fn later(p, q, s) { %s %s print(p); } later(1, 2, 3);'
+                % (init, lp, reuse, reuse, callall))
+    return 'fn run() { %s %s %s %s print(ra); } run();' % (init, lp, reuse, callall)
+
+
+CAPEXIT_FIXED_FRAG = [
+    'fn run() { var fs = [nil, nil, nil]; var n = 0; var i = 0; while i < 5 { var x = i * 10; fs[n] = || x; n += 1; if i == 2 { break; } i += 1; } '
+    'var a = "a"; var b = "b"; var c = "c"; var k = 0; while k < n { print(fs[k]()); k += 1; } } run();',
+    'fn run() { var fs = [nil, nil]; var n = 0; var i = 0; while i < 2 { var y = 100 + i; fs[n] = || y; n += 1; i += 1; if i < 5 { continue; } print("unreachable"); } '
+    'var a = "a"; var b = "b"; var k = 0; while k < n { print(fs[k]()); k += 1; } } run();',
+    '{ var g = nil; var h = nil; var i = 0; while i < 3 { i += 1; var u = "u"; var x = i; var v = "v"; var y = i * 2; g = || x + y; h = || { y += 1; return y; }; '
+    '{ var z = 7; if i == 2 { break; } } } var p = "p"; var q = "q"; var s = "s"; var t = "t"; var w = "w"; print(g()); print(h()); print(g()); }',
+]
+
+CAPEXIT_FIXED_BEYOND = [
+    'fn run_break() { var fs = []; for i in 0..5 { var x = i * 10; fs.push(|| x); if i == 2 { break; } } var a = "a"; var b = "b"; var c = "c"; for f in fs { print(f()); } } '
+    'fn run_continue() { var fs = []; var i = 0; while i < 2 { var y = 100 + i; fs.push(|| y); i += 1; if i < 5 { continue; } print("unreachable"); } '
+    'var a = "a"; var b = "b"; for f in fs { print(f()); } } run_break(); run_continue();',
+    'fn f() { var fs = []; for a in [1, 2] { var p = a; for b in (1, 2, 3) { var q = b * 10; fs.push(|| p + q); if b == 2 { break; } } fs.push(|| p); if a == 1 { continue; } } '
+    'var r1 = "r"; var r2 = "r"; var r3 = "r"; var r4 = "r"; var out = []; for g in fs { out.push(g()); } return out; } print(f());',
+]
+
+
+def brace_expr(g):
+    """an expression whose text contains { }: map literals, block lambdas called in place, nested maps, strings with braces"""
+    r = g.r
+    k = r.randint(0, 9)
+    g.shapes.add(('brace', k))
+    if k == 0:
+        return '{1: "a", 2: "b"}.len()'
+    if k == 1:
+        return '{1: "p", 2: "q"}.get(%d)' % r.choice([1, 2])
+    if k == 2:
+        return '(|| { return %d + %d; })()' % (r.randint(0, 9), r.randint(0, 9))
+    if k == 3:
+        return '(|u| { var t = u * 2; { t += 1; } return t; })(%d)' % r.randint(0, 9)
+    if k == 4:
+        return '{1: {2: "deep"}}.get(1).get(2)'
+    if k == 5:
+        return '{"k}": %d, "{j": 2}.get("k}")' % r.randint(0, 9)
+    if k == 6:
+        return '(|| { if %s { return "{"; } return "}"; })()' % r.choice(['true', 'false'])
+    if k == 7:
+        return '"{" + "}"' if r.random() < 0.5 else '"a{b}c"'
+    if k == 8:
+        return '(|| { var m = {1: "x"}; return m.get(1); })()'
+    return '{1: (|| { return "v"; })()}.get(1)' if r.random() < 0.7 else '{}.len()'
+
+
+def interp_nest(g, depth):
+    """a string literal whose interpolations nest `depth` deep; innermost expressions contain braces; literal text has braces"""
+    r = g.r
+    parts = []
+    for _ in range(r.randint(1, 2)):
+        parts.append(r.choice(['', 'a', '<', '{', '}', '{ ', ' }', '{}', 'x{y}z']))
+        if depth <= 1:
+            inner = brace_expr(g)
+        else:
+            w = r.randint(0, 4)
+            sub = interp_nest(g, depth - 1)
+            if w == 0:
+                inner = sub
+            elif w == 1:
+                inner = '%s + %s' % (sub, r.choice(['"}"', '"{"', '"+"']))
+            elif w == 2:
+                inner = '(|| { return %s; })()' % sub              # a brace pair AROUND the nested interpolation
+            elif w == 3:
+                inner = '{1: %s}.get(1)' % sub
+            else:
+                inner = '[%s, %s][0]' % (sub, brace_expr(g))
+        parts.append('${%s%s%s}' % (r.choice(['', ' ']), inner, r.choice(['', ' '])))
+    parts.append(r.choice(['', '>', '}', '{', ' end']))
+    return '"' + ''.join(parts) + '"'
+
+
+def interp_program(g):
+    r = g.r
+    depth = r.choice([1, 2, 2, 2, 3, 3])
+    n = r.randint(1, 3)
+    g.shapes.add(('interp-nest', depth, n))
+    lines = []
+    for _ in range(n):
+        s = interp_nest(g, depth)
+        lines.append(r.choice(['print(%s);', 'var s = %s; print(s); print(s.len());', 'fn f() { return %s; } print(f());',
+                               'if true { print(%s); }']) % s)
+        depth = r.choice([2, 3])
+    return ' '.join(lines) + ' print("after");'
+
+
+INTERP_FIXED = [
+    'print("one map: ${ {1: "a", 2: "b"}.len() }"); print("lambda: ${ (|| { return 3 + 4; })() }"); '
+    'print("nested: ${ "<len ${ {1: "a", 2: "b"}.len() }>" }"); print("nested lambda: ${ "[${ (|| { return 3 + 4; })() }]" }");',
+    'print("a${ "b${ "c${ {1: "d"}.get(1) }e" }f" }g");',
+    'print("${ (|| { return "x${ (|| { return "y${ {1: 2}.get(1) }"; })() }"; })() }");',
+    'print("{${ "{${ "}" }}" }}"); print("}${ "${ "{" }" }{");',
+]
+
+# inside the function fragment (block lambdas called in place; no maps): FnSem / FnVM through the parser model
+INTERP_FIXED_FRAG = [
+    'print("lambda: ${ (|| { return 3 + 4; })() }"); print("nested lambda: ${ "[${ (|| { return 3 + 4; })() }]" }");',
+    'print("${ (|| { return "x${ (|| { return "y${ (|u| { return u; })(2) }"; })() }"; })() }");',
+    'print("{${ "{${ "}" }}" }}"); print("}${ "${ "{" }" }{");',
+    'var a = 1; print("p${ "q${ (|| { { a += 1; } return a; })() }r${ a }" }s");',
 ]
 
 
@@ -1213,7 +1423,8 @@ def run(ctx):
     fg = FnGen(rng)
     fg.shapes = st.shapes
     n_fn = max(40, int((400 if quick else 5000) * SCALE))
-    fprogs = [(p_, ('fnprobe',)) for p_ in FN_PROBES] + [(' '.join(fg.program(i % 2 == 1)), ('fn', i)) for i in range(n_fn)]
+    fprogs = directed_fn(fg, max(20, int((60 if quick else 800) * SCALE)))
+    fprogs += [(' '.join(fg.program(i % 2 == 1)), ('fn', i)) for i in range(n_fn)]
     check_functions(ctx, st, fprogs, 'f')
     ctx.violations[:] = ctx.violations[:5]
     # 3. grouping: decompile the real bytes
@@ -1238,8 +1449,8 @@ def run(ctx):
     n_bey = max(20, int((150 if quick else 2500) * SCALE))
     n_try = max(30, int((250 if quick else 3000) * SCALE))
     n_rec = max(30, int((250 if quick else 3000) * SCALE))
-    bey = (list(BEYOND_FIXED) + list(TRY_FIXED) + list(RECOVERY_FIXED) + [beyond_program(g) for _ in range(n_bey)]
-           + [try_program(g) for _ in range(n_try)] + [recovery_program(g) for _ in range(n_rec)])
+    bey = (directed_beyond(g, max(20, int((40 if quick else 600) * SCALE)), max(30, int((80 if quick else 1200) * SCALE)), n_try, n_rec)
+           + list(BEYOND_FIXED) + [beyond_program(g) for _ in range(n_bey)])
     check_beyond(ctx, st, bey, "b")
     ctx.violations[:] = ctx.violations[:5]
     if len(ctx.corr_broken) > 8:
@@ -1252,12 +1463,15 @@ def run(ctx):
                 "(bare, left- and right-parenthesised, operand triples that reveal the grouping), (operator, kind, kind) triples "
                 "over 8 operand kinds, decompiled operator pairs in both nestings, (enclosing statement form, statement form) "
                 "nestings of random programs, beyond-fragment templates, (loop kind, jump in try block, jump in catch clause, "
-                "outer handler placement, if-wrapped, guarded) shapes of try/catch-in-loop programs",
+                "outer handler placement, if-wrapped, guarded) shapes of try/catch-in-loop programs, (exit kind, fn/block, loop "
+                "kind, nesting, global store, push) shapes of captured-loop-local programs, (depth, count) of nested interpolations",
         "operator_pairs": pairs,
         "kind_triples": len([s for s in st.shapes if s[0] in ("kind", "un")]),
         "statement_nestings": len([s for s in st.shapes if s[0] in ("top", "block", "if", "else", "elseif", "while")]),
         "try_in_loop_shapes": len([s for s in st.shapes if s[0] == "try"]),
         "recovery_shapes": len([s for s in st.shapes if s[0] in ("recover", "recover1")]),
+        "capture_exit_shapes": len([s for s in st.shapes if s[0] in ("capexit", "capexit-decl")]),
+        "nested_interpolation_shapes": len([s for s in st.shapes if s[0] in ("interp-nest", "brace") or s[:2] == ("fn", "interp-nest")]),
         "function_shapes": len([s for s in st.shapes if "fn" in s[:2] or "return" in s[:2] or "var-lambda" in s[:2]]),
         "samples": [progs[len(PROBES)][0], " ".join(structured[0])[:300], " ".join(structured[n_rand])[:300], bey[-1][:300],
                     show(cases[0][0])[:200]],
@@ -1266,11 +1480,41 @@ def run(ctx):
     ctx.cov.update(st.n)
 
 
+def directed_fn(g, n_cap):
+    """directed programs of the function fragment: fixed probes, captured loop-body locals + break / continue / return + slot
+    reuse, nested interpolations with braces"""
+    return ([(p_, ('fnprobe',)) for p_ in FN_PROBES + CAPEXIT_FIXED_FRAG + INTERP_FIXED_FRAG]
+            + [(capture_exit_program(g, True), ('capexit', i)) for i in range(n_cap)])
+
+
+def directed_beyond(g, n_cap, n_interp, n_try, n_rec):
+    """directed programs compared with the full reference interpreter"""
+    return (list(CAPEXIT_FIXED_BEYOND) + list(INTERP_FIXED) + list(INTERP_FIXED_FRAG) + list(TRY_FIXED) + list(RECOVERY_FIXED)
+            + [capture_exit_program(g, False) for _ in range(n_cap)] + [interp_program(g) for _ in range(n_interp)]
+            + [try_program(g) for _ in range(n_try)] + [recovery_program(g) for _ in range(n_rec)])
+
+
 def search(ctx):
-    """obligations or correspondences broken: look for a failing input with the thorough generators"""
-    old = ctx.tier
-    ctx.tier = "thorough"
+    """obligations or correspondences broken: look for a failing input.  Bounded to ~5 minutes: first the directed families
+    (one per modelled mechanism that a side condition or a byte comparison speaks about) at three times their quick size,
+    then - only if they found nothing - the quick generators again at twice their size with the advanced random state."""
+    global SCALE
+    st = Stats()
+    fg = FnGen(ctx.rng)
+    fg.shapes = st.shapes
+    log("[C05] search: directed families")
+    check_fragment(ctx, st, [(p, ("probe",)) for p in PROBES], "sp")
+    if not ctx.violations:
+        check_functions(ctx, st, directed_fn(fg, int(200 * SCALE)), "sf")
+    if not ctx.violations:
+        check_beyond(ctx, st, directed_beyond(fg, int(150 * SCALE), int(250 * SCALE), int(400 * SCALE), int(400 * SCALE)), "sb")
+    ctx.violations[:] = ctx.violations[:5]
+    if ctx.violations:
+        return
+    log("[C05] search: random generators x2")
+    old_tier, old_scale = ctx.tier, SCALE
+    ctx.tier, SCALE = "quick", SCALE * 2
     try:
         run(ctx)
     finally:
-        ctx.tier = old
+        ctx.tier, SCALE = old_tier, old_scale
